@@ -48,6 +48,9 @@ func NewHTTPResponseBody(
 			// The regular expression is compiled lazily, it has to be checked here.
 			err = rs.Check()
 		}
+		if err == nil {
+			err = rs.CheckExample()
+		}
 		if err != nil {
 			return HTTPResponseBody{}, adoptErrorForResponseBody(d, err)
 		}
